@@ -13,6 +13,7 @@ import DispensoVerif.Model.SmallVec
 import DispensoVerif.Model.OnceFn
 import DispensoVerif.Model.ConVec
 import DispensoVerif.Model.Arena
+import DispensoVerif.Model.ParFor
 
 /-! Handlers of the dvdriver line protocol. Core Lean only. -/
 namespace Driver
@@ -272,6 +273,37 @@ def arenaH (st : St) (args : List String) : St × String :=
           | none => "reject")
   | _ => (st, "bad-op")
 
+/-- C12/C13/C48 parallel_for plan:
+    `parfor bits signed start stop chunk maxThreads wait minItems g pool recursive`
+    reply: `T <n> s1 e1 … sn en` with the chunks sorted by (start, end);
+    `parforplan …` (same arguments) replies `<mode> <tasks> <tailConcurrent>` -/
+def sortChunks (l : List (Int × Int)) : List (Int × Int) :=
+  (l.toArray.qsort fun a b => a.1 < b.1 ∨ (a.1 = b.1 ∧ a.2 < b.2)).toList
+
+def parforH (args : List String) : String :=
+  match ints args with
+  | some [bits, sg, start, stop, chunk, mt, wait, minItems, g, pool, recur] =>
+    let ty : ParFor.Ty := ParFor.Ty.mk bits.toNat (decide (sg ≠ 0))
+    let chunk' := if chunk = -1 then ty.maxVal else chunk
+    let c : ParFor.Cfg := ParFor.Cfg.mk ty start stop chunk' mt.toNat (decide (wait ≠ 0)) minItems.toNat g.toNat
+      pool.toNat (decide (recur ≠ 0))
+    let p := ParFor.plan c
+    let cs := sortChunks p.chunks
+    s!"T {cs.length}" ++
+      (cs.foldl (fun acc x => acc ++ " " ++ toString x.1 ++ " " ++ toString x.2) "")
+  | _ => "bad-op"
+
+def parforPlanH (args : List String) : String :=
+  match ints args with
+  | some [bits, sg, start, stop, chunk, mt, wait, minItems, g, pool, recur] =>
+    let ty : ParFor.Ty := ParFor.Ty.mk bits.toNat (decide (sg ≠ 0))
+    let chunk' := if chunk = -1 then ty.maxVal else chunk
+    let c : ParFor.Cfg := ParFor.Cfg.mk ty start stop chunk' mt.toNat (decide (wait ≠ 0)) minItems.toNat g.toNat
+      pool.toNat (decide (recur ≠ 0))
+    let p := ParFor.plan c
+    s!"{reprStr p.mode} {p.tasks} {if p.tailConcurrent then 1 else 0}"
+  | _ => "bad-op"
+
 /-- `trace begin <protocol> <params…>` starts a session; `T <event…>` feeds one trace line -/
 def traceBegin (args : List String) : Sess × String :=
   match args with
@@ -356,6 +388,8 @@ def dispatch (st : St) : List String → St × String
   | "oncefn" :: rest => oncefnH st rest
   | "convec" :: rest => convecH st rest
   | "arenaseq" :: rest => arenaH st rest
+  | "parfor" :: rest => (st, parforH rest)
+  | "parforplan" :: rest => (st, parforPlanH rest)
   | "trace" :: "begin" :: rest =>
     let (s, r) := traceBegin rest
     ({ st with sess := s }, r)
